@@ -3,12 +3,14 @@
    Schedules: any list of Submit (Request::send / send_no_response, any timeout), Pump (one turn of
    wait_for_outgoing_message + SendBuffer::write), Chunk (a response chunk: any request id known,
    unknown or already completed, any sequence number, intermediate / final / abort, any body),
-   AckMsg / ErrMsg (other messages from the server), Advance (time passes), Close.
+   AckMsg / ErrMsg (other messages from the server), Advance (time passes unnoticed by the transport),
+   Close, Scan (one call of next_timeout), Sleep lim (next_timeout, then the transport sleeps until the
+   wake-up instant it returned - if 0 <= lim, something else ends the sleep after lim units if earlier).
    [exec dec mi mp init ops]: the state after the schedule, for ANY decoder [dec] of merged chunks and
    any limits max_inflight [mi], max_pending_incoming [mp].  [submitted]: labels of the requests that
    have a callback; [done]: the log of all completions (label, 0, response marker | label, 1, status);
    [open]: labels still queued or pending. *)
-From Coq Require Import List ZArith Permutation.
+From Coq Require Import List ZArith Permutation Lia.
 Import ListNotations.
 From OV Require Import C35.Model C35.Proofs.
 Open Scope Z_scope.
@@ -89,6 +91,123 @@ Theorem C35_timeout_iff_deadline : forall dec mi mp s k,
 Proof. intros dec mi mp s k Hc. split; [apply pump_timeouts; exact Hc|apply timeout_iff_deadline]. Qed.
 Print Assumptions C35_timeout_iff_deadline.
 
+(* ---- the wake-up instant ------------------------------------------------------------------------ *)
+(* What next_timeout returns (the instant wait_for_outgoing_message sleeps until) when it is called at
+   [nw] with the requests [p] pending: an instant after [nw] that is not after the deadline of any
+   request that stays pending - so no deadline can pass while the transport sleeps - and that is the
+   deadline of one of them; None exactly when no request stays pending. *)
+Theorem C35_wakeup_is_earliest_deadline : forall nw p,
+  match next_wake (alive nw p) with
+  | Some w => nw < w /\
+              (forall rid e, In (rid, e) p -> nw < e_deadline e -> w <= e_deadline e) /\
+              (exists rid e, In (rid, e) p /\ nw < e_deadline e /\ e_deadline e = w)
+  | None => forall rid e, In (rid, e) p -> e_deadline e <= nw
+  end.
+Proof.
+  intros nw p. pose proof (next_wake_alive nw p) as H. destruct (next_wake (alive nw p)) as [w|].
+  - destruct H as (Hlt & Hall & ([rid e] & Hx & Hd)). split; [exact Hlt|]. split.
+    + intros r e0 Hin Hn. rewrite Forall_forall in Hall. apply (Hall (r, e0)). apply alive_in. split; [exact Hin|exact Hn].
+    + apply alive_in in Hx as [Hx Hn]. exists rid, e. repeat split; assumption.
+  - intros rid e Hin. destruct (Z.le_gt_cases (e_deadline e) nw) as [Hle|Hgt]; [exact Hle|].
+    assert (Hx : In (rid, e) (alive nw p)) by (apply alive_in; split; [exact Hin|exact Hgt]). rewrite H in Hx. destruct Hx.
+Qed.
+Print Assumptions C35_wakeup_is_earliest_deadline.
+
+(* Scan and Sleep are that call: the pending requests afterwards are those whose deadline has not
+   passed, the wake-up shown is [next_wake] of them (as the distance from now, -1 for None), and a
+   sleep ends at the wake-up (lim < 0), or lim units later if that is earlier. *)
+Theorem C35_scan_returns_wakeup : forall dec mi mp s o,
+  closed s = false -> (o = Scan \/ exists lim, o = Sleep lim) ->
+  let s' := fst (fst (step dec mi mp s o)) in
+  let w := next_wake (alive (now s) (pending s)) in
+  pending s' = alive (now s) (pending s) /\
+  stepw dec mi mp s o = (step dec mi mp s o, match w with Some w => w - now s | None => -1 end) /\
+  now s' = match o with Sleep lim => sleep_to (now s) lim w | _ => now s end /\
+  (o = Sleep (-1) -> forall t, w = Some t -> now s' = t).
+Proof.
+  intros dec mi mp s o Hc Ho. destruct Ho as [->|[lim ->]]; cbv zeta; unfold stepw; cbn [step wake]; rewrite Hc;
+    cbn [fst scanned pending now]; repeat split; try reflexivity.
+  - intros H; discriminate H.
+  - intros H t Ht. injection H as ->. rewrite Ht. reflexivity.
+Qed.
+Print Assumptions C35_scan_returns_wakeup.
+
+(* ---- a transport that sleeps only until the wake-ups it was given ----------------------------------- *)
+(* Histories in which time passes only inside Sleep (no Advance of a positive amount): by induction
+   over the history, at every point no pending request's deadline has passed - the clock stands at or
+   before every pending deadline - and the clock never goes back. *)
+Theorem C35_no_deadline_passes_asleep : forall dec mi mp ops,
+  Forall timely ops ->
+  let s := exec dec mi mp init ops in
+  (forall rid e, In (rid, e) (pending s) -> now s <= e_deadline e) /\
+  (forall o, now s <= now (fst (fst (step dec mi mp s o)))).
+Proof.
+  intros dec mi mp ops Ht s. split.
+  - intros rid e Hin. pose proof (exec_due dec mi mp ops init Ht due_init) as HD. unfold Due in HD.
+    rewrite Forall_forall in HD. exact (HD _ Hin).
+  - intros o. apply step_now_mono.
+Qed.
+Print Assumptions C35_no_deadline_passes_asleep.
+
+(* In such a history every submitted request is, at every point, completed exactly once or open exactly
+   once - queued, or pending with its deadline not passed; an operation that scans (Pump, Scan, Sleep)
+   completes with BadTimeout exactly the pending requests whose deadline is that very instant - none
+   earlier, and none is left for later: BadTimeout comes at the first scan at or after the deadline,
+   which is a scan AT the deadline; a response is delivered only by a chunk carrying the request id the
+   request is pending under, decoded from chunks that all carry it, and only while the deadline of
+   that request has not passed. *)
+Theorem C35_sleeping_transport_exactly_once : forall dec mi mp ops,
+  Forall timely ops ->
+  let s := exec dec mi mp init ops in
+  (forall k, In k (submitted s) ->
+     (count_occ Z.eq_dec (done_ks s) k = 1 /\ count_occ Z.eq_dec (open s) k = 0)%nat \/
+     ((count_occ Z.eq_dec (done_ks s) k = 0 /\ count_occ Z.eq_dec (open s) k = 1)%nat /\
+      (In k (q_ks (queue s)) \/ exists rid e, In (rid, e) (pending s) /\ e_k e = k /\ now s <= e_deadline e))) /\
+  (forall o k, closed s = false -> scans o ->
+     (In (k, 1, 2) (snd (step dec mi mp s o)) <->
+      exists rid e, In (rid, e) (pending s) /\ e_k e = k /\ e_deadline e = now s)) /\
+  (forall o rid e, closed s = false -> scans o -> In (rid, e) (pending s) -> e_deadline e <= now s ->
+     In (e_k e, 1, 2) (snd (step dec mi mp s o)) /\
+     forall ops2 sq kind mid part n,
+       let s2 := exec dec mi mp (fst (fst (step dec mi mp s o))) ops2 in
+       step dec mi mp s2 (Chunk rid sq kind mid part n) = (s2, -1, [])) /\
+  (forall o k m, In (k, 0, m) (snd (step dec mi mp s o)) ->
+     exists rid sq kind mid part n e,
+       o = Chunk rid sq kind mid part n /\ find rid (pending s) = Some e /\ e_k e = k /\ now s <= e_deadline e /\
+       let cs := merge (e_chunks e ++ [mk_chunk rid sq kind mid part n]) in
+       dec cs = inl m /\ Forall (fun c => k_rid c = rid) cs).
+Proof.
+  intros dec mi mp ops Ht s.
+  pose proof (exec_due dec mi mp ops init Ht due_init) as HD. fold s in HD.
+  pose proof (exec_inv2 dec mi mp ops init inv2_init) as HJ. fold s in HJ.
+  split; [|split; [|split]].
+  - intros k. apply timely_ledger. exact Ht.
+  - intros o k Hc Ho. apply timeout_on_time; assumption.
+  - intros o rid e Hc Ho Hin Hd.
+    assert (Hev : In (e_k e, 1, 2) (snd (step dec mi mp s o))).
+    { apply (timeout_on_time dec mi mp s o (e_k e) HD Hc Ho). exists rid, e. repeat split; auto.
+      unfold Due in HD. rewrite Forall_forall in HD. specialize (HD _ Hin). cbn in HD. lia. }
+    split; [exact Hev|]. intros ops2 sq kind mid part n.
+    exact (completed_ids_ignored dec mi mp ops o ops2 rid e 1 2 Hin Hev sq kind mid part n).
+  - intros o k m Hin.
+    destruct (response_in_time dec mi mp s o k m HJ HD Hin) as (rid & sq & kind & mid & part & n & e & Ho & Hf & Hk & Hd).
+    destruct (response_provenance dec mi mp s o k m HJ Hin) as (rid' & sq' & kind' & mid' & part' & n' & e' & Ho' & Hf' & Hk' & Hdec).
+    rewrite Ho in Ho'. injection Ho' as <- <- <- <- <- <-. rewrite Hf in Hf'. injection Hf' as <-.
+    exists rid, sq, kind, mid, part, n, e. repeat split; try assumption; apply Hdec.
+Qed.
+Print Assumptions C35_sleeping_transport_exactly_once.
+
+(* Liveness of the idle transport: from any state, with no response and no submission, a transport
+   that keeps sleeping until the wake-up it is given has completed every pending request after at most
+   one wake-up per pending request and one more scan (each with BadTimeout at its deadline, by the
+   theorem above); the queue and the set of submitted requests are untouched. *)
+Theorem C35_idle_transport_drains : forall dec mi mp s,
+  closed s = false ->
+  let s' := exec dec mi mp s (repeat (Sleep (-1)) (S (length (pending s)))) in
+  pending s' = [] /\ closed s' = false /\ queue s' = queue s /\ submitted s' = submitted s.
+Proof. exact idle_drains. Qed.
+Print Assumptions C35_idle_transport_drains.
+
 (* The executable oracle applied to the implementation's observations holds on the model for every
    schedule (no validity hypothesis: every operation list is a schedule). *)
 Theorem C35_oracle : forall c, valid c -> known c = 0 -> oracle c (run c) = true.
@@ -122,3 +241,24 @@ Example ex_pending_and_completing :
   let s := exec decode_parts 8 5 init (firstn 8 ex_ops) in
   exists e, In (1001, e) (pending s) /\ In (e_k e, 1, 2) (snd (step decode_parts 8 5 s Pump)).
 Proof. eexists. split; [vm_compute; left; reflexivity|vm_compute; left; reflexivity]. Qed.
+
+(* a Publish-like request (9) and a Read-like one (2) on an idle transport that sleeps until its wake-ups *)
+Definition ex_sleep : list op :=
+  [Submit 9 0; Submit 2 0; Submit 5 0; Pump; Pump; Pump; Sleep (-1); Scan; Chunk 1002 1 1 70 0 1; Chunk 1001 2 1 71 0 1; Sleep (-1); Sleep (-1)].
+
+Example ex_sleep_timely : Forall timely ex_sleep.
+Proof. repeat constructor. Qed.
+
+Example ex_sleep_run : run (mk_case 8 5 ex_sleep) =
+  [0; 0;  0; 0;  0; 0;  1001; 0; 0;  1002; 0; 0;  1003; 0; 0;  0; 2; 0;  1; 1; 1; 2; 3; 0;  0; 0;  1; 0; 0; 71; 0;
+   0; 3; 0;  1; 2; 1; 2; -1; 0].
+Proof. vm_compute. reflexivity. Qed.
+
+Example ex_wake : next_wake (alive 0 [(1001, mk_entry 0 9 []); (1002, mk_entry 1 2 []); (1003, mk_entry 2 5 []); (1004, mk_entry 3 0 [])]) = Some 2.
+Proof. vm_compute. reflexivity. Qed.
+
+Example ex_drain :
+  let s := exec decode_parts 8 5 init (firstn 6 ex_sleep) in
+  length (pending s) = 3%nat /\ closed s = false /\
+  done (exec decode_parts 8 5 s (repeat (Sleep (-1)) 4)) = [(1, 1, 2); (2, 1, 2); (0, 1, 2)].
+Proof. vm_compute. repeat split. Qed.
